@@ -8,6 +8,8 @@ the audit tables):
               discharged by a forward interval analysis or listed in spec/audit_panics.json with a reviewed reason
               (keyed by function / kind / operand type with a multiplicity: a new site of an audited key is reported)
   C04.guard   machine-checked guards behind audited sites that a dropped check would silently invalidate
+  C04.seek    the decoder's position is updated only after the underlying seek succeeded and the front-ends drop their
+              buffers on a seek (C06.state, C06.inval): the invariant behind the audited seek arithmetic
   C04.loop    every CFG cycle is driven by a finite iterator or passes a listed progress call on every trip
   C04.rec     call-graph recursion is limited to the listed, bounded cycles
   C04.alloc   every allocation size is bounded by the interval analysis or audited as growing with consumed input
@@ -77,3 +79,6 @@ def run(ctx, rep):
     reach, prog = auditlib.panic_audit(ctx, rep, "C04", ["G_dec"], floor_sites=180)
     guards(ctx, rep, "C04")
     auditlib.structure_audit(ctx, rep, "C04", reach, prog)
+    # the seek arithmetic of the readers (position x unit - buffered amount) is audited as non-panicking because the
+    # decoder's position and the front-end buffers are kept in step: that invariant is C06.state / C06.inval
+    compose(ctx, rep, "C06", "C04.seek", r"^C06\.(state|inval)$")
